@@ -19,24 +19,32 @@
 namespace Thanos.Gate
 
 structure St where
-  cap : Nat
+  cap : Nat           -- write.global.max_concurrency; 0 = no gate is built (gate.NewNoop)
   held : Nat          -- len(ch)
   running : Nat       -- requests between a successful Start and the end of the handler
   waiting : Nat       -- requests blocked in Start
-  gauge : Int         -- the in-flight gauge of pkg/gate
+  gauge : Int         -- the in-flight gauge of pkg/gate (InstrumentGateInFlight)
+  total : Nat         -- the total counter of pkg/gate (InstrumentGateTotal): Start calls begun
   panics : Nat        -- gate.Done on an empty gate
   maxRunning : Nat    -- high-water mark of `running`
   deriving DecidableEq, Repr
 
-def St.init (cap : Nat) : St := ⟨cap, 0, 0, 0, 0, 0, 0⟩
+def St.init (cap : Nat) : St := ⟨cap, 0, 0, 0, 0, 0, 0, 0⟩
 
 inductive Ev where
   | arrive            -- a request calls Start with a live context
   | arriveCancelled   -- a request calls Start and the select takes ctx.Done (context already done)
   | acquire           -- a blocked Start puts its token into the channel
   | cancel            -- the context of a blocked Start is cancelled: Start returns the error
-  | finish            -- a running request reaches the end of the handler
+  | cancelRunning     -- the client of a running request goes away (its context is cancelled); the
+                      -- handler keeps its slot until it returns (the forward runs on a detached context)
+  | finish            -- a running request reaches the end of the handler (answered, forward
+                      -- timeout, any error path after the gate): the deferred Done runs once
   deriving DecidableEq, Repr
+
+/-- a request enters the write path through the noop gate: nothing is counted -/
+def enterNoop (s : St) : St :=
+  { s with running := s.running + 1, maxRunning := max s.maxRunning (s.running + 1) }
 
 /-- a successful Start: token in, gauge up, the request runs -/
 def enter (s : St) : St :=
@@ -49,21 +57,34 @@ def done (s : St) : St :=
   else { s with gauge := s.gauge - 1, panics := s.panics + 1 }
 
 /-- one step of the system; `doneFirst` = the deferred `Done` is registered before the error check
-    (so it also runs when Start failed).  Events that are not enabled leave the state unchanged. -/
+    (so it also runs when Start failed).  Events that are not enabled leave the state unchanged.
+    With `cap = 0` the limiter keeps `gate.NewNoop()`: Start always succeeds (it does not look at
+    the context), Done does nothing, no metric exists. -/
 def step (doneFirst : Bool) (s : St) : Ev → St
-  | .arrive => if s.held < s.cap then enter s else { s with waiting := s.waiting + 1 }
-  | .arriveCancelled => if doneFirst then done s else s
+  | .arrive =>
+    if s.cap = 0 then enterNoop s else
+    let s := { s with total := s.total + 1 }
+    if s.held < s.cap then enter s else { s with waiting := s.waiting + 1 }
+  | .arriveCancelled =>
+    if s.cap = 0 then enterNoop s else
+    let s := { s with total := s.total + 1 }
+    if doneFirst then done s else s
   | .acquire => if s.waiting > 0 ∧ s.held < s.cap then enter { s with waiting := s.waiting - 1 } else s
   | .cancel =>
     if s.waiting = 0 then s else
     let s' := { s with waiting := s.waiting - 1 }
     if doneFirst then done s' else s'
-  | .finish => if s.running = 0 then s else done { s with running := s.running - 1 }
+  | .cancelRunning => s
+  | .finish =>
+    if s.running = 0 then s
+    else if s.cap = 0 then { s with running := s.running - 1 }
+    else done { s with running := s.running - 1 }
 
 def run (doneFirst : Bool) (cap : Nat) (evs : List Ev) : St := evs.foldl (step doneFirst) (St.init cap)
 
-/-- the property at one state: never more than `cap` requests in the write path, no panic -/
-def Safe (s : St) : Prop := s.running ≤ s.cap ∧ s.maxRunning ≤ s.cap ∧ s.panics = 0
+/-- the property at one state: with a gate configured (`cap ≥ 1`) never more than `cap` requests in
+    the write path; and never a panic -/
+def Safe (s : St) : Prop := (1 ≤ s.cap → s.running ≤ s.cap ∧ s.maxRunning ≤ s.cap) ∧ s.panics = 0
 
 /-! ### what the real runtime does: a freed slot goes to a blocked Start at once -/
 
@@ -73,7 +94,8 @@ def wake (doneFirst : Bool) : Nat → St → St
   | fuel + 1, s => if s.waiting > 0 ∧ s.held < s.cap then wake doneFirst fuel (step doneFirst s .acquire) else s
 
 /-- the script steps of the harness: arrive, arrive with a dead context while the gate is full,
-    cancel the oldest waiter, finish the oldest running request — each followed by the wake-ups -/
+    cancel the oldest waiter, cancel the client of a running request, finish the oldest running
+    request — each followed by the wake-ups -/
 def scriptStep (doneFirst : Bool) (s : St) (e : Ev) : St :=
   let s' := step doneFirst s e
   wake doneFirst s'.waiting s'
